@@ -155,6 +155,8 @@ ValidIndex(sym, ix) ==
            n == Len(S.ixs)
        IN /\ n >= 1
           /\ \A j \in 1..n : ValidIndex(sym, S.ixs[j])
+          \* the table describes THIS index: no entries for charges the index does not have
+          /\ \A e \in 1..Len(S.ext) : CmHas(ix, S.ext[e].c)
           /\ \A i \in 1..Len(ix.cm) :
                LET c == ix.cm[i].c
                    E == {e \in 1..Len(S.ext) : S.ext[e].c = c}
